@@ -147,6 +147,16 @@ def to_rows(D, base=0x1000):
                       Previous_TParm_ID=pp, Descrip='')
                 pp = pid
 
+    if D.get('irdt'):
+        # instance reference data types per class (inst_ref<KL>, inst_ref_set<KL>), as BridgePoint creates them
+        for ci, c in enumerate(D['classes']):
+            for is_set, nm in ((False, 'inst_ref<%s>' % c['kl']), (True, 'inst_ref_set<%s>' % c['kl'])):
+                tid = R.id()
+                ix['type'][nm] = tid
+                R.add('S_DT', DT_ID=tid, Dom_ID=0, Name=nm, Descrip='', DefaultValue='')
+                pe(tid, c['parent'], 3)
+                R.add('S_IRDT', DT_ID=tid, isSet=is_set, Obj_ID=ix['cls'][ci])
+
     # referential attributes: O_RATTR rows are written once per attribute, O_REF once per (attribute, relationship)
     rattr_done = {}
     last_ref = {}
